@@ -15,6 +15,7 @@ from typing import Any, List
 
 from ..absint import App, ClassRef, ExcVal, FuncRef, Hooks, Interp, ModRef, Obj, Raised, Sym, vrepr
 from ..model import AnalysisError, Repo, dotted, norm
+from ..cfg import CFG, calls_in, node_exprs
 from ..report import Check
 
 R = 'pytezos.michelson.repl.Interpreter'
@@ -202,3 +203,51 @@ def run(repo: Repo, chk: Check) -> None:
                what=f'{target.qualname} builds the copy without {missing}: the stack snapshot taken before a REPL cell (and DUP) loses that part of the value, '
                     f'so a failing cell changes what a later COMMIT / BIG_MAP_DIFF reports')
     chk.minimum('value classes with a hand-written copy', ncopy, 1)
+
+    # ---- 4 the context snapshot is a deep one: the context class (and its repo bases) is copied by the generic deepcopy ---------------------
+    # A hand-written __deepcopy__/__reduce__/__getstate__ on the context decides what the snapshot shares with the live context: unless
+    # it deep-copies each attribute, registries mutated in place (big_maps, counters held in containers) survive the rollback.
+    chk.set_clause('C22.4')
+    CTXQ = 'pytezos.context.impl.ExecutionContext'
+    hier = [q for q in repo.mro(CTXQ) if q in repo.classes]
+    chk.require(CTXQ in repo.classes, 'ExecutionContext not found')
+    for q in hier:
+        ci = repo.classes[q]
+        for special in ('__deepcopy__', '__reduce__', '__reduce_ex__', '__getstate__', '__setstate__'):  # what copy.deepcopy consults (__copy__ is not)
+            m = ci.methods.get(special)
+            if m is None:
+                continue
+            # acceptable only if everything it puts into the copy goes through deepcopy
+            calls = [dotted(c.func) or '' for c in ast.walk(m.node) if isinstance(c, ast.Call)]
+            deep_only = any(c.endswith('deepcopy') for c in calls) and not any(c.endswith(('.update', 'copy.copy', '.copy')) or c in ('dict', 'copy') for c in calls)
+            chk.ob('R-FLOW', m.qualname, deep_only, f'{special} of the context deep-copies what it carries over', m.loc, {'calls': calls[:8]},
+                   what=f'{m.qualname} builds the snapshot of the execution context by hand and shares mutable state with the live context (calls: {calls[:5]}): '
+                        'what a failing cell registers (big_map pointers, ...) survives the rollback')
+    chk.ob('R-FLOW', CTXQ, True, 'context snapshot: copy protocol of the context class hierarchy examined', repo.classes[CTXQ].loc, {'classes': hier})
+
+    # ---- 5 COMMIT validates before it mutates: the stack's big_maps keep the context they were created in (known finding above), so every check
+    #        COMMIT can fail on has to come BEFORE the first call that draws identifiers from that context (aggregate_lazy_diff)
+    chk.set_clause('C22.5')
+    CI = 'pytezos.michelson.instructions.jupyter.CommitInstruction'
+    ce = repo.find_method(CI, 'execute')
+    chk.require(ce is not None, 'CommitInstruction.execute not found')
+    g = CFG(ce.node)
+    muts = g.nodes_where(lambda n: any(isinstance(c.func, ast.Attribute) and c.func.attr == 'aggregate_lazy_diff' for e in node_exprs(n) for c in calls_in(e)))
+    chk.require(bool(muts), 'COMMIT: aggregate_lazy_diff call not found')
+
+    def is_check(n):
+        a = n.ast
+        if isinstance(a, (ast.Raise, ast.Assert)):
+            return True
+        return any(isinstance(c.func, ast.Attribute) and c.func.attr in ('assert_type_equal', 'assert_type_in') for e in node_exprs(n) for c in calls_in(e))
+
+    checks = g.nodes_where(is_check)
+    late = []
+    for m_ in muts:
+        for c_ in checks:
+            if c_ is not m_ and g.paths_avoiding(m_, c_, set()) is not None:
+                late.append((c_.line, norm(c_.ast)[:70]))
+    chk.ob('R-PATH', ce.qualname, not late, 'no validation of COMMIT is reachable after aggregate_lazy_diff has drawn identifiers', ce.loc,
+           {'checks': len(checks), 'after_the_mutation': sorted(set(late))[:3]},
+           what=f'COMMIT can still fail at {sorted(set(late))[:2]} after aggregate_lazy_diff advanced the identifier counters of the context the big_maps point to: '
+                'the failed cell is rolled back but its identifiers are spent (later COMMITs report other ids)')
